@@ -539,7 +539,14 @@ class Evaluator:
                 return args[2]
             raise Unsupported("getattr on a non-abstract object")
         if cn == "int" and len(args) == 1:
-            return args[0].code if isinstance(args[0], DT) else int(args[0])
+            if isinstance(args[0], DT):
+                return args[0].code
+            if isinstance(args[0], Opaque):
+                raise Unsupported("int() of an opaque value")
+            try:
+                return int(args[0])
+            except (TypeError, ValueError):
+                raise EvalRaise("TypeError")
         if cn == "set" and not args:
             return _MutSet()
         if cn == "next" and args and isinstance(args[0], (list, tuple)):
